@@ -268,7 +268,7 @@ func clsStateRank(s uint32) int32 {
 	switch streamState(s) {
 	case streamOpened:
 		return 0
-	case streamHalfClosed:
+	case streamHalfClosed, streamState(3): // 3 = streamHalfClosedLocal (a deferred local close)
 		return 1
 	case streamClosed:
 		return 2
@@ -282,6 +282,8 @@ func clsStateName(s uint32) string {
 		return "open"
 	case streamHalfClosed:
 		return "half-closed"
+	case streamState(3):
+		return "half-closed(local, deferred)"
 	case streamClosed:
 		return "closed"
 	}
